@@ -107,7 +107,18 @@ def run(F, R):
     bound_writes = {i for i, j, dst, rv, line in f.stmts() if place_fields(dst)[-1:] in ([("min_i64", ACC)], [("max_i64", ACC)])}
     flag_writes = {i for i, j, dst, rv, line in f.stmts() if place_fields(dst)[-1:] and place_fields(dst)[-1][1] == ACC and place_fields(dst)[-1][0] not in ("min_i64", "max_i64", "null_count", "has_int_stats")}
     # exclude the entry(..).or_insert(ColAcc{..}) initialisation (aggregate literal, not a field store)
-    silent = hdr.bb in f.reachable(body, avoid=frozenset(bound_writes | flag_writes))
+    # excused: the edge on which the chunk is proved all-NULL (null_count == num_values): it holds no value at all
+    excused = set()
+    for sb in range(f.n):
+        si = f.switch_info(sb)
+        if si and si[0] == "bool" and si[1]:
+            e = k9.kexpr(f, "c:" + si[1])
+            if "null_count_opt(" in e and "num_values(" in e:
+                if e.startswith(("Ne(", "ne(")) or "::ne(" in e:
+                    excused.add(si[2][False])
+                elif e.startswith(("Eq(", "eq(")) or "::eq(" in e:
+                    excused.add(si[2][True])
+    silent = hdr.bb in f.reachable(body, avoid=frozenset(bound_writes | flag_writes | excused))
     R.check(not silent, "C18.R3", "compute_statistics:chunk-without-bounds-does-not-poison",
             "a column chunk without statistics (or without min/max) leaves the bounds folded from other chunks in place: its values may lie outside the reported min_i64/max_i64, which PackedGroupKeys/PackedJoinKeys trust as exact bounds",
             f.loc(body), dict(bound_write_blocks=sorted(bound_writes), poison_flag_blocks=sorted(flag_writes)))
